@@ -215,6 +215,7 @@ type Frame struct {
 	lockKeep  bool // ... except the state of lock-style monitors: the code reached cannot contain a function that works on it
 	parent    *Frame          // the frame this one is inlined into
 	ownBoxes  map[string]*Loc // boxed locals of this frame (by reference term) whose address has not escaped
+	ownMaps   map[string]*types.Map // maps made by this frame that only its own code can reach (static escape analysis, see mapStaysLocal)
 	pendingArgs []Val         // arguments of the call being dispatched (for escape marking)
 	predGuard map[*ssa.BasicBlock]Term // for phi: guard of the edge from each pred into the current block
 }
